@@ -6,6 +6,7 @@ mod field;
 mod group;
 mod job;
 mod r1cs;
+mod refimpl;
 mod replay;
 mod oracle;
 mod scen_c03;
@@ -16,6 +17,7 @@ mod scen_c07;
 mod scen_c09;
 mod scen_c10;
 mod scen_c15;
+mod scen_c18;
 mod scen_r1cs;
 mod shapes;
 
@@ -114,6 +116,23 @@ fn tasks_for(prop: &str, tier: &str, seed: u64) -> Vec<Task> {
                         replay: serde_json::json!({"kind": "c03", "shape": scen_r1cs::shape_json(&shape), "seed": seed}),
                         run: Box::new(move || {
                             use scen_c03::job_c03 as f;
+                            on_curve!(c.as_str(), f, &shape, seed, &c)
+                        }),
+                    });
+                }
+            }
+            out
+        }
+        "C18" => {
+            let mut out = vec![];
+            for shape in scen_c18::c18_shapes(thorough).into_iter() {
+                for c in ["secq256k1", "zorro", "curve25519"] {
+                    let (shape, c) = (shape.clone(), c.to_string());
+                    out.push(Task {
+                        name: format!("C18:{}:{}", shape.name, c),
+                        replay: serde_json::json!({"kind": "c18", "shape": scen_r1cs::shape_json(&shape), "seed": seed}),
+                        run: Box::new(move || {
+                            use scen_c18::job_c18 as f;
                             on_curve!(c.as_str(), f, &shape, seed, &c)
                         }),
                     });
@@ -373,7 +392,7 @@ fn main() {
                     println!("REPLAY {}", if any_wrong { "REPRODUCED" } else { "NOT-REPRODUCED" });
                     std::process::exit(if any_wrong { 1 } else { 0 });
                 }
-                Some(kind @ ("c10" | "c13" | "c15" | "c07" | "c06" | "c09" | "c05" | "c04")) => {
+                Some(kind @ ("c10" | "c13" | "c15" | "c07" | "c06" | "c09" | "c05" | "c04" | "c03" | "c18")) => {
                     let seed = rp["seed"].as_u64().unwrap_or(0);
                     let mut any_wrong = false;
                     for (k, m) in [(0u64, model.clone()), (1, HashMap::new()), (2, HashMap::new())] {
@@ -383,6 +402,10 @@ fn main() {
                                 replay::c10_native::<Secq>(&case, seed + k, m)
                             }
                             "c13" => replay::c13_native::<Secq>(rp["variant"].as_str().unwrap(), seed + k, m),
+                            "c03" | "c18" => {
+                                let shape: r1cs::Shape = serde_json::from_value(rp["shape"].clone()).unwrap();
+                                replay::diff_native::<Secq>(&shape, seed + k)
+                            }
                             "c04" => {
                                 let case: scen_c04::C04Case = serde_json::from_value(rp["case"].clone()).unwrap();
                                 scen_c04::c04_native::<Secq>(&case, seed + k)
